@@ -13,7 +13,7 @@ import (
 )
 
 func init() {
-	register(&Prop{ID: "C33", Module: "V.C33.Check", Gen: c33Gen, Quick: 60, Thorough: 400, Shard: 10})
+	register(&Prop{ID: "C33", Module: "V.C33.Check", Gen: c33Gen, Quick: 44, Thorough: 400, Shard: 4})
 }
 
 var c33KF = regexp.MustCompile(`@keyframes d2Transition-\S+-(\d+) \{([^@]*?)\n\}`)
@@ -114,13 +114,15 @@ func c33Gen(r *Rng, tier string, n int) []Case {
 	Ts := []int{1, 2, 3, 10, 100, 1000, 1500, 1000000}
 	for len(list) < n {
 		var c nt
-		switch r.Intn(4) {
-		case 0:
+		switch r.Intn(8) {
+		case 0, 1:
 			c = nt{r.Range(1, 12), Ts[r.Intn(len(Ts))]}
-		case 1:
-			c = nt{r.Range(95, 110), r.Range(1, 2000)}
 		case 2:
+			c = nt{r.Range(95, 110), r.Range(1, 2000)}
+		case 3:
 			c = nt{r.Range(1, 160), r.Range(1, 3000)}
+		case 4, 5:
+			c = nt{r.Range(1, 30), r.Range(1, 3000)}
 		default:
 			c = nt{r.Range(1, 40), r.Range(1, 100000)}
 		}
